@@ -70,37 +70,70 @@ def d1(chk, prog):
     tb.done("a pooled sample's sex chromosomes are not brought to the reference sex's levels")
 
 
+FLAT_CLASSES = ["auto", "x", "parx", "y", "pary"]
+
+
+def flat_want(c, hap, par):
+    """flat reference level of a class; None = not stated (PAR-Y under a male reference with a PAR genome: the code excludes it from
+    the single-copy Y there, the property does not speak of it)"""
+    if par is None:
+        c = {"parx": "x", "pary": "y"}.get(c, c)
+    if c == "pary":
+        return None if hap else -1
+    return {"auto": 0, "x": -1 if hap else 0, "parx": 0, "y": -1}[c]
+
+
 def d2(chk, prog):
-    chk.clause("D2", "flat reference: 0 autosomes, -1 Y, -1 X iff male reference (PAR-X 0 with a PAR genome); depth = 2^log2")
+    chk.clause("D2", "flat reference: 0 autosomes, -1 Y (PAR included for a female reference), -1 X iff male reference (PAR-X 0 with a PAR genome); depth = 2^log2")
     fi = prog.fn("cnvlib.cnary.CopyNumArray.expect_flat_log2")
     tb = Table(chk, "flat-reference", "expect_flat_log2 table", fi.loc(), fi.qn)
     for hap, par, style in itertools.product([False, True], [None, "grch37", "grch38"], ["", "chr"]):
         W.reset()
         it = Interp(prog, par_model())
-        classes = [c for c in CLS4 if not (c == "parx" and par is None)]
-        out = tb.guard(lambda: it.run_method(cna(classes, style), "expect_flat_log2", [hap, par]), f"hap={hap} par={par}")
+        out = tb.guard(lambda: it.run_method(cna(FLAT_CLASSES, style), "expect_flat_log2", [hap, par]), f"hap={hap} par={par}")
         if out is None:
             continue
-        for i, c in enumerate(classes):
-            want = {"auto": 0, "x": -1 if hap else 0, "parx": 0, "y": -1}[c]
+        for i, c in enumerate(FLAT_CLASSES):
+            want = flat_want(c, hap, par)
+            if want is None:
+                continue
             tb.cell(same(out.v[i], want), dict(haploid_x_reference=hap, par_genome=par, naming=style or "bare", cls=c, got=repr(out.v[i]), want=want))
     tb.done("the flat reference profile differs from (autosome 0, Y -1, X -1 iff male reference)")
     fd = prog.fn(f"{REF}.do_reference_flat")
-    tb2 = Table(chk, "flat-reference", "do_reference_flat stores the flat profile to log2 and 2^log2 to depth", fd.loc(), fd.qn)
-    for hap, par in itertools.product([False, True], [None, "grch38"]):
+    tb2 = Table(chk, "flat-reference", "do_reference_flat stores the flat profile to log2 and 2^log2 to depth, for target and antitarget bins alike", fd.loc(), fd.qn)
+    for hap, par, anti in itertools.product([False, True], [None, "grch38"], [False, True]):
         W.reset()
         model = par_model()
-        classes = [c for c in CLS4 if not (c == "parx" and par is None)]
-        model.prims[f"{REF}.bed2probes"] = lambda it, fname, classes=classes: cna(classes, "chr", log2=lambda i, c: 0)
+
+        def probes(it, fname):
+            cl = FLAT_CLASSES
+            g = cna(cl, "chr", log2=lambda i, c: 0)
+            g.meta["_classes"] = list(cl)
+            g.meta["source"] = fname
+            return g
+        model.prims[f"{REF}.bed2probes"] = probes
+
+        def add(it, obj, other):
+            obj.data = DF({c: Vec(list(obj.data.cols[c].v) + list(other.data.cols[c].v), aligned=True) for c in obj.data.cols}, obj.data.n + other.data.n, "range")
+            obj.meta["_classes"] = list(obj.meta["_classes"]) + list(other.meta["_classes"])
+            return None
+        model.method_prims["add"] = add
         it = Interp(prog, model)
-        out = tb2.guard(lambda: it.run(fd.qn, ["targets.bed", None, None, hap, par]), f"hap={hap} par={par}")
+        out = tb2.guard(lambda: it.run(fd.qn, ["targets.bed", "antitargets.bed" if anti else None, None, hap, par]), f"hap={hap} par={par} antitargets={anti}")
         if out is None:
             continue
+        classes = FLAT_CLASSES * (2 if anti else 1)
+        ok_n = out.data.n == len(classes)
+        tb2.cell(ok_n, dict(hap=hap, par=par, antitargets=anti, rows=out.data.n, want_rows=len(classes)))
+        if not ok_n:
+            continue
         for i, c in enumerate(classes):
-            want = {"auto": 0, "x": -1 if hap else 0, "parx": 0, "y": -1}[c]
+            want = flat_want(c, hap, par)
+            if want is None:
+                continue
             lg2, dp = out.data.cols["log2"].v[i], out.data.cols["depth"].v[i]
-            tb2.cell(same(lg2, want) and same(dp, Fr(1, 2) if want == -1 else 1), dict(hap=hap, par=par, cls=c, log2=repr(lg2), depth=repr(dp)))
-    tb2.done("do_reference_flat does not store the flat profile / its depth")
+            tb2.cell(same(lg2, want) and same(dp, Fr(1, 2) if want == -1 else 1), dict(hap=hap, par=par, antitargets=anti, bin="antitarget" if i >= len(FLAT_CLASSES) else "target", cls=c, log2=repr(lg2), depth=repr(dp), want=want))
+    tb2.done("do_reference_flat does not store the flat profile / its depth on every bin")
 
 
 def pool_arrays(n_files, style="chr", gene_differs=None, coord_differs=None, with_depth=True):
@@ -411,6 +444,9 @@ MUTANTS = [
     dict(name="swap fix_edge / fix_rmask for targets", file=_R, old="        filenames, fa_fname, is_haploid_x, diploid_parx_genome, sexes, True, fix_gc, fix_edge, False\n", new="        filenames, fa_fname, is_haploid_x, diploid_parx_genome, sexes, True, fix_gc, False, fix_edge\n"),
     dict(name="swap is_chr_x / is_chr_y at the call", file=_R, old="    shift_sex_chroms(cnarr, sexes, ref_flat_logr, is_chr_x, is_chr_y)\n", new="    shift_sex_chroms(cnarr, sexes, ref_flat_logr, is_chr_y, is_chr_x)\n"),
     dict(name="in-place widening of the shared Y mask (seeded C05a)", file=_R, old='        cnarr[is_chr_x | is_chr_y, "log2"] += 1.0', new='        is_chr_y |= is_chr_x\n        cnarr[is_chr_y, "log2"] += 1.0'),
+    dict(name="seeded C05d: flat profile computed before the antitargets are added", file=_R, old='    ref_probes = bed2probes(targets)\n    if antitargets:\n        ref_probes.add(bed2probes(antitargets))\n    # Set sex chromosomes by "reference" sex\n    ref_probes["log2"] = ref_probes.expect_flat_log2(is_haploid_x_reference, diploid_parx_genome)\n',
+         new='    ref_probes = bed2probes(targets)\n    # Set sex chromosomes by "reference" sex\n    ref_probes["log2"] = ref_probes.expect_flat_log2(is_haploid_x_reference, diploid_parx_genome)\n    if antitargets:\n        ref_probes.add(bed2probes(antitargets))\n'),
+    dict(name="seeded C15d: PAR-Y of a female reference left at 0", file="cnvlib/cnary.py", old="            idx = (self.chr_y_filter()).values\n        cvg[idx] = -1.0", new="            idx = (self.chr_y_filter(diploid_parx_genome)).values\n        cvg[idx] = -1.0"),
     dict(name="twin: first array renamed throughout load_sample_block", edits=[(_R, "cnarr1", "first_arr", True)], expect="silent"),
     dict(name="twin: masks computed in another order, flat profile first", file=_R, old="    is_chr_x = cnarr1.chr_x_filter(diploid_parx_genome)\n    is_chr_y = cnarr1.chr_y_filter(diploid_parx_genome)\n    ref_flat_logr = cnarr1.expect_flat_log2(is_haploid_x, diploid_parx_genome)\n",
          new="    ref_flat_logr = cnarr1.expect_flat_log2(is_haploid_x, diploid_parx_genome)\n    x_mask = cnarr1.chr_x_filter(diploid_parx_genome)\n    is_chr_y = cnarr1.chr_y_filter(diploid_parx_genome)\n    is_chr_x = x_mask\n", expect="silent"),
